@@ -225,3 +225,6 @@ func (r *Run) ValidateTraceCfg(module, config, traceFile string, lines int, time
 	}
 	return v, nil
 }
+
+// Tail returns the last n bytes of s.
+func Tail(s string, n int) string { return tail(s, n) }
